@@ -50,11 +50,11 @@ inductive Job
   | body (base : NsMap) (tag : EName) (A : Attrs) (M2 : NsMap)
 
 /-- the SAX calls for a forest; `none` when an exception would be raised or
-the handler would take one of its defective paths (text moved to the tail,
-prefix generated after the declarations were written) -/
+the handler would take its defective path (prefix generated after the
+declarations were written) -/
 def calls (env : NsEnv) : Job → Content → Option (List Call)
   | .content _ _, .nil => some []
-  | .content M inTail, .data v rest =>
+  | .content M _, .data v rest =>
     match encodeData env v M with
     | .error _ => none
     | .ok (val, M') =>
@@ -63,7 +63,6 @@ def calls (env : NsEnv) : Job → Content → Option (List Call)
         | none => calls env (.content M true) rest
         | some x =>
           if x.isEmpty then calls env (.content M true) rest
-          else if inTail then none
           else (calls env (.content M true) rest).map (Call.chars x :: ·)
   | .content M _, .child q attrs kids rest =>
     match splitQName q with
@@ -253,7 +252,7 @@ def L1 (env : NsEnv) (cfg : Cfg) (c : Content) : Prop :=
 
 theorem hSetData_idle (env : NsEnv) (v : Val) (M : NsMap) (val : Option Str)
     (he : encodeData env v M = .ok (val, M)) (par : Option (List NsMap)) (it : Bool) (pp : List (List Pfx))
-    (lv : Int) (pe : Bool) (hok : ¬ (it = true ∧ ∃ x, val = some x ∧ x.isEmpty = false)) :
+    (lv : Int) (pe : Bool) :
     hSetData env v ⟨M, par, none, [], it, none, pp, lv, pe⟩
       = (charsCalls val, .ok ⟨M, par, none, [], true, none, pp, lv, pe⟩) := by
   unfold hSetData
@@ -264,9 +263,7 @@ theorem hSetData_idle (env : NsEnv) (v : Val) (M : NsMap) (val : Option Str)
   | some x =>
     by_cases hx : x.isEmpty = true
     · simp [charsCalls, hx]
-    · cases it with
-      | false => simp [charsCalls, hx]
-      | true => exact absurd ⟨rfl, x, rfl, by simpa using hx⟩ hok
+    · simp [charsCalls, hx]
 
 theorem hSetData_pending (env : NsEnv) (v : Val) (M2 M3 : NsMap) (val : Option Str)
     (he : encodeData env v M2 = .ok (val, M3)) (pl : List NsMap) (tag : EName) (A : Attrs) (it : Bool)
@@ -315,25 +312,22 @@ theorem l1_all (env : NsEnv) (cfg : Cfg) (c : Content) : L1 env cfg c := by
           cases val with
           | none =>
             simp only [] at h
-            rw [hLoop_cons_ok env cfg _ _ _ _ _ (by simp [hStep]; exact hSetData_idle env v M' none he (some ps) it (pre :: pp) lv pe (by simp))]
+            rw [hLoop_cons_ok env cfg _ _ _ _ _ (by simp [hStep]; exact hSetData_idle env v M' none he (some ps) it (pre :: pp) lv pe)]
             rw [ih.1 M' true cs h ps pre pp lv pe rest]
             simp [charsCalls]
           | some x =>
             simp only [] at h
             by_cases hx : x.isEmpty = true
             · simp only [hx, if_true] at h
-              rw [hLoop_cons_ok env cfg _ _ _ _ _ (by simp [hStep]; exact hSetData_idle env v M' (some x) he (some ps) it (pre :: pp) lv pe (by rintro ⟨_, y, hy, hy2⟩; cases hy; simp [hx] at hy2))]
+              rw [hLoop_cons_ok env cfg _ _ _ _ _ (by simp [hStep]; exact hSetData_idle env v M' (some x) he (some ps) it (pre :: pp) lv pe)]
               rw [ih.1 M' true cs h ps pre pp lv pe rest]
               simp [charsCalls, hx]
             · simp only [hx] at h
-              cases it with
-              | true => simp at h
-              | false =>
-                simp at h
-                obtain ⟨r, hr, rfl⟩ := h
-                rw [hLoop_cons_ok env cfg _ _ _ _ _ (by simp [hStep]; exact hSetData_idle env v M' (some x) he (some ps) false (pre :: pp) lv pe (by simp))]
-                rw [ih.1 M' true r hr ps pre pp lv pe rest]
-                simp [charsCalls, hx, prepend_prepend]
+              simp at h
+              obtain ⟨r, hr, rfl⟩ := h
+              rw [hLoop_cons_ok env cfg _ _ _ _ _ (by simp [hStep]; exact hSetData_idle env v M' (some x) he (some ps) it (pre :: pp) lv pe)]
+              rw [ih.1 M' true r hr ps pre pp lv pe rest]
+              simp [charsCalls, hx, prepend_prepend]
     · intro base tag A M2 cs h pl pp it lv pe q rest hq hb
       subst hb
       simp only [calls] at h
